@@ -243,6 +243,19 @@ func BasicAuthMiddleware(validTokens map[string]bool) Middleware {
 	return BasicAuthMiddlewareWithConfig(validTokens, DefaultAuthRateLimitConfig())
 }
 
+// BearerToken returns the credential of an `Authorization: Bearer <token>`
+// header value. Scheme names are case-insensitive (RFC 9110 section 11.1) and
+// the scheme may be followed by more than one space (RFC 6750), so `bearer x`
+// and `Bearer  x` carry the same credential as `Bearer x`.
+func BearerToken(header string) (string, bool) {
+	const scheme = "bearer"
+	header = strings.TrimSpace(header)
+	if len(header) <= len(scheme) || header[len(scheme)] != ' ' || !strings.EqualFold(header[:len(scheme)], scheme) {
+		return "", false
+	}
+	return strings.TrimLeft(header[len(scheme):], " "), true
+}
+
 // BasicAuthMiddlewareWithConfig provides token-based authentication with custom rate limit config
 func BasicAuthMiddlewareWithConfig(validTokens map[string]bool, config AuthRateLimitConfig) Middleware {
 	// Track failed auth attempts per IP.
@@ -321,9 +334,9 @@ func BasicAuthMiddlewareWithConfig(validTokens map[string]bool, config AuthRateL
 				return SendError(ctx, 401, "unauthorized: missing authorization header")
 			}
 
-			// Remove "Bearer " prefix if present
-			if len(token) > 7 && token[:7] == "Bearer " {
-				token = token[7:]
+			// Remove the "Bearer" scheme if present
+			if t, ok := BearerToken(token); ok {
+				token = t
 			}
 
 			// Check if token is valid
